@@ -490,7 +490,13 @@ def a_generated_rails_imports(ctx):
     joined = [c for c in ast.walk(fn) if isinstance(c, ast.Call) and src(c.func) == "_join_config" and c.lineno > g.lineno and "import_paths" in src(c) and var in src(c)]
     gf = find_fn(t, "_generate_rails_flows")
     imports = sorted({x.value for x in ast.walk(gf) if isinstance(x, ast.Constant) and isinstance(x.value, str) and x.value.startswith("import ")}) if gf else []
-    ok = bool(later) and bool(joined)
+    # ... and the files that the load added must be PARSED: the per-file loop runs again after the load (inline, or through the helper that holds it)
+    from . import C13 as _C13
+    loop_fns = {f.name for f in _C13._loader_functions(t) if f is not fn and any(isinstance(w, ast.While) for w in walk_no_nested(f))}
+    first_load = min([c.lineno for c in later] or [10 ** 9])
+    reparsed = any(isinstance(c, ast.Call) and isinstance(c.func, ast.Name) and c.func.id in loop_fns and c.lineno > first_load for c in ast.walk(fn)) or \
+        any(isinstance(w, ast.While) and w.lineno > first_load and "len(" in src(w.test) for w in walk_no_nested(fn))
+    ok = bool(later) and bool(joined) and reparsed
     ctx.check("C02.a.generated-rails-imports", CFGPY, fn.name, "imports of the generated rails flows", ok or not imports,
               "the imports of the generated rails flows are resolved" if ok or not imports else
               "the generated rails flows start with %s, but after they are parsed nothing joins their import_paths and loads them: unless the user's own Colang imports `guardrails`, the `_bot_say` hook is never "
